@@ -197,10 +197,10 @@ package scipipe
 
 //@ func (*Task).TempDir(t) (res)
 //@   props C14
-//@   requires prefix: tempDirPrefix == "_scipipe_tmp"
 //@   deterministic structural
 //@   assumes stable: res == tmpDirOf(t)
-//@   ensures single-segment: !contains(res, "/") && len(res) > 0 && res != "." && res != ".." && hasPrefix(res, "_scipipe_tmp")
+//@   ensures no-slash: !contains(res, "/")
+//@   ensures prefixed: hasPrefix(res, "_scipipe_tmp") && len(res) > 12
 //@   ensures at-most-255-bytes: len(res) <= 255
 
 //@ func (*Task).tempDirsExist(t) (res)
@@ -488,6 +488,8 @@ package scipipe
 //@ ghost func hexOf(b string) string
 //@ ghost func baseOf(p string) string
 //@ axiom sanitize.charset: forall s string :: fullMatch(reReplaceAll("[^a-z0-9_\\-\\.]+", s, "_"), "[a-z0-9_.\\-]*")
+//@ axiom sanitize.noslash: forall s string :: !contains(reReplaceAll("[^a-z0-9_\\-\\.]+", s, "_"), "/")
+//@ axiom hex.noslash: forall b string :: !contains(hexOf(b), "/")
 //@ axiom hex.len: forall b string :: len(hexOf(b)) == 2 * len(b)
 //@ axiom hex.charset: forall b string :: fullMatch(hexOf(b), "[0-9a-f]*")
 //@ axiom sha1.len: forall d string :: len(sha1Of(d)) == 20
